@@ -124,6 +124,7 @@ type Corpus struct {
 	raceMu                sync.Mutex
 	RaceReports           []string // stderr of children that printed "WARNING: DATA RACE"
 	Abandoned             int      // requests not run because their chunk's child had died three times
+	WatchdogHits          int      // children stopped by the wall-clock watchdog (inconclusive, never a violation)
 }
 
 func New(env *harness.Env, peg string, race bool, tag string) *Corpus {
@@ -475,7 +476,15 @@ func (c *Corpus) runChunk(reqs []Req, res []Res, chunk []int, o RunOpts, w int) 
 		} else if code == 137 || code == 152 || strings.Contains(stderrTail, "SIGXCPU") || strings.Contains(stderrTail, "signal: killed") {
 			why = fmt.Sprintf("CPU limit of %d s exceeded on one request list (non-termination?)", o.CPUSeconds)
 		}
-		res[last] = Res{Seq: last, Fatal: why + "\n" + stderrTail}
+		if strings.HasPrefix(why, "WATCHDOG") {
+			// the generous wall-clock watchdog fired: that says nothing about the property (machine overloaded?)
+			c.raceMu.Lock()
+			c.WatchdogHits++
+			c.raceMu.Unlock()
+			res[last] = Res{Seq: last, Lost: true}
+		} else {
+			res[last] = Res{Seq: last, Fatal: why + "\n" + stderrTail}
+		}
 		done[last] = true
 		var rest []int
 		for _, i := range remaining {
